@@ -1103,6 +1103,8 @@ theorem accept_ok {d : Defects} {s s' : RStore} {cand : RoomNode} (h : accept d 
       · cases h
       · split at h
         · cases h
+        split at h
+        · cases h
         simp only [Bool.not_eq_true', Bool.not_eq_false] at h1 h2
         refine ⟨h1, h2, ?_⟩
         cases hroom : s.rooms.find? (·.id = cand.node.id) with
